@@ -30,7 +30,7 @@ when it is returned to the caller.
 -/
 import Pandora.Model.C15
 
-/-- the translator opens `Pandora.Go` in every regenerated file -/
+-- the translator opens `Pandora.Go` in every regenerated file
 namespace Pandora.Go
 def c15Anchor : Unit := ()
 end Pandora.Go
